@@ -342,6 +342,25 @@ def directed() -> Iterator[Tuple[str, G.Script]]:
                 s.round([s.rd(2, 5000, b"after", src=11)])
                 yield f"debug_{op}_{who}_{how}", probe(s)
 
+    # --- the accept branch of run() (its INFO log line and whatever that delivery triggers) runs BEFORE the round's poll for
+    # writable sockets: it is routed by the writable set the previous poll left.  Connection 1 hears INFO log lines and its
+    # socket is broken when the line of `accept` is written; connection 2 (CLIENT_CLOSED) was not writable at the previous
+    # poll and is writable now: it is not handed the notice.  (Observed behaviour; the Spec judges that stretch by the
+    # previous poll.  Seen at log level INFO and below.)
+    s = G.Script(); s.accept(3)
+    s.round([s.rd(1, cd.MT_SUBSCRIBE, G.p_i32(cd.MT_RTMA_LOG_INFO))], writable=[1, 2, 3])
+    s.round([s.rd(2, cd.MT_SUBSCRIBE, G.p_i32(cd.MT_CLIENT_CLOSED))], writable=[1, 2, 3])
+    s.round([s.rd(3, 5000, b"")], writable=[1, 3])
+    s.round([s.rd(3, 5000, b"")], writable=[1, 2, 3, 4], fail={1: "hdr"}, accept=True)
+    yield "stale_wlist_at_accept", probe(s)
+    # ... and the periodic section AFTER it: a round that accepts and reads nothing does not poll at all (nobody is writable);
+    # the TIMING report kills a logger, only loggers can be handed the notice although connection 2 was writable before
+    s = G.Script(); connect_n(s, 3, loggers=[1])
+    s.round([s.rd(1, cd.MT_SUBSCRIBE, G.p_i32(cd.MT_TIMING_MESSAGE))])
+    s.round([s.rd(2, cd.MT_SUBSCRIBE, G.p_i32(cd.MT_CLIENT_CLOSED))])
+    s.round([], dt=2000, fail={1: "hdr"}, accept=True)
+    yield "stale_wlist_tick_after_accept", probe(s)
+
     # --- re-entrancy: while a manager-originated message is being delivered, the failure handling publishes further
     # manager messages which are themselves undeliverable somewhere
     for order_first in ("failing", "healthy"):
